@@ -209,6 +209,9 @@ def check_order(ctx):
     ctx.check(bool(pub_src & j_src), inst, "PROVENANCE", body.path,
               "published records and journal extents iterate the same vector", body.where(pub[0]),
               {"journal_sources": sorted(map(str, j_src)), "publication_sources": sorted(map(str, pub_src))})
+    from rules.common import whole_collection_loop
+    ok, nm, det = whole_collection_loop(body, pub[0], 0)
+    ctx.check(ok and "prepared_writes" in nm, inst, "PROVENANCE", body.path, "every prepared write of the batch is published (loop over all of prepared_writes)", body.where(pub[0]), det)
     # the value stored into record.sector is the sector of the same prepared write
     val_e = R.arg_expr(body, body.nodes[pub[0]], 1)
     ctx.check(val_e.has_field("PreparedWrite", "sector"), inst, "PROVENANCE", body.path,
